@@ -245,6 +245,10 @@ func (e *Enc) instr(in ssa.Instruction) {
 		t := e.freshConst("closure", SInt)
 		e.assume(not(eq(t, intLit(0))), "closure non-nil")
 		e.vals[x] = Sc{t}
+		if e.closureOf == nil {
+			e.closureOf = map[string]*ssa.MakeClosure{}
+		}
+		e.closureOf[t.S] = x
 	case *ssa.MakeChan:
 		t := e.freshConst("chan", SInt)
 		e.assume(not(eq(t, intLit(0))), "chan non-nil")
